@@ -44,6 +44,8 @@ class ExactAlgorithmCplex(ExactAlgorithmBase, PairwiseBasedAlgorithm):
         :param optimize: Boolean for whether to check necessary conditions in order to add constraints. Default is True.
         WARNING: if optimize = True, then, we cannot ensure that all the optimal consensus will be returned
         """
+        if "cplex" not in globals():
+            raise ImportError("The cplex module is required by ExactAlgorithmCplex")
         ExactAlgorithmBase.__init__(self, optimize)
 
     def compute_consensus_rankings(
